@@ -586,6 +586,11 @@ def mon_prompt(pid):
             chk.violation("%s:not-prompt:%s" % (pid, shape),
                           "no declared output is producible any more (%s) but the run keeps waiting for an unrelated, never-ending step" % shape,
                           {"kind": "impl-counterexample", "case": slim(case)})
+        elif case.get("expect", "error") == "output":
+            if not res.get("output_id"):
+                chk.violation("%s:prompt-shape-returned-error:%s" % (pid, shape),
+                              "the output is producible once the optional source is settled (%s) but the run ended with an error: %s" % (shape, res.get("err_class")),
+                              {"kind": "impl-counterexample", "case": slim(case)})
         elif res.get("output_id"):
             chk.violation("%s:prompt-shape-returned-output:%s" % (pid, shape), "an output was returned although none is producible (%s)" % shape,
                           {"kind": "impl-counterexample", "case": slim(case)})
